@@ -64,8 +64,17 @@ class FreshMonitor(Monitor):
 
     def fresh(self, kind, s):
         if kind == "sam":
-            return emu.Sampler(s.circuit, s.input_state, source=s.source,
-                               detector=s.detector, backend=s.backend)
+            # "the same settings": freshly created source and detector objects
+            # carrying the current values, so that state hidden inside a
+            # long-lived component cannot be shared with the reference
+            src, det = s.source, s.detector
+            fsrc = emu.Source(purity=src.purity, brightness=src.brightness,
+                              indistinguishability=src.indistinguishability,
+                              probability_threshold=src.probability_threshold)
+            fdet = emu.Detector(efficiency=det.efficiency, p_dark=det.p_dark,
+                                photon_counting=det.photon_counting)
+            return emu.Sampler(s.circuit, s.input_state, source=fsrc,
+                               detector=fdet, backend=s.backend.backend)
         if kind == "qs":
             return emu.QuickSampler(s.circuit, s.input_state,
                                     photon_counting=s.photon_counting,
